@@ -580,6 +580,10 @@ func stripAliases(sel *influxql.SelectStatement, idx map[int]bool) {
 }
 
 func c12One(c *Ctx, idx int, local map[string]int64) {
+	if idx == -2000 {
+		c12PerDatabase(c)
+		return
+	}
 	if idx <= -1000 {
 		c12Joined(c) // replay of a case from the fixed sequence: the whole sequence
 		return
@@ -620,6 +624,125 @@ func c12Joined(c *Ctx) {
 	run(b, "SELECT /22/ FROM m0", "SELECT /2/ FROM m0", "SELECT /27/ FROM m0", "SELECT /7/ FROM m0", "SELECT max(/2/), mean(/22/) FROM m0", "SELECT x FROM m0 GROUP BY /aa/", "SELECT x FROM m0 GROUP BY /a/", "SELECT x FROM m0 GROUP BY /bc/", "SELECT x FROM m0 GROUP BY /b/, /c/")
 	c.R.MergeCounts(local)
 	c.R.Count("joined-text-sequence", int64(k))
+}
+
+// composedMapper: field dimensions from one mapper, types from another.
+type composedMapper struct {
+	fd *testMapper
+	influxql.TypeMapper
+}
+
+func (c *composedMapper) FieldDimensions(mm *influxql.Measurement) (map[string]influxql.DataType, map[string]struct{}, error) {
+	return c.fd.FieldDimensions(mm)
+}
+
+func (c *composedMapper) CallType(name string, args []influxql.DataType) (influxql.DataType, error) {
+	return c.TypeMapper.(influxql.CallTypeMapper).CallType(name, args)
+}
+
+// partialCalls answers CallType only for function names of odd (or even)
+// length and knows nothing else.
+type partialCalls struct {
+	m   *testMapper
+	odd bool
+}
+
+func (p partialCalls) MapType(mm *influxql.Measurement, field string) influxql.DataType {
+	return influxql.Unknown
+}
+
+func (p partialCalls) CallType(name string, args []influxql.DataType) (influxql.DataType, error) {
+	if (len(name)%2 == 1) != p.odd {
+		return influxql.Unknown, nil
+	}
+	return p.m.CallType(name, args)
+}
+
+// c12PerDatabase: measurements of one name in several databases / retention
+// policies, each with a schema of its own (the mapper is keyed by the full
+// name): the expansion is the union over all sources.
+func c12PerDatabase(c *Ctx) {
+	r := c.R
+	schemas := map[string]struct {
+		f map[string]influxql.DataType
+		t []string
+	}{
+		"db0..cpu":    {map[string]influxql.DataType{"usage": influxql.Integer, "sys": influxql.Float}, []string{"host"}},
+		"db1..cpu":    {map[string]influxql.DataType{"usage": influxql.Float, "idle": influxql.Float}, []string{"host", "region"}},
+		".rp0.cpu":    {map[string]influxql.DataType{"a": influxql.Integer}, []string{"t0"}},
+		".rp1.cpu":    {map[string]influxql.DataType{"b": influxql.String}, []string{"t1"}},
+		"db2.rp2.cpu": {map[string]influxql.DataType{"c": influxql.Boolean}, []string{"t2"}},
+	}
+	fm := keyedMapper(func(mm *influxql.Measurement) (map[string]influxql.DataType, []string) {
+		s := schemas[mm.Database+"."+mm.RetentionPolicy+"."+mm.Name]
+		return s.f, s.t
+	})
+	for _, tc := range []struct{ q, want string }{
+		{"SELECT * FROM db0..cpu, db1..cpu", "SELECT host::tag, idle::float, region::tag, sys::float, usage::float FROM db0..cpu, db1..cpu"},
+		{"SELECT * FROM db1..cpu, db0..cpu", "SELECT host::tag, idle::float, region::tag, sys::float, usage::float FROM db1..cpu, db0..cpu"},
+		{"SELECT * FROM rp0.cpu, rp1.cpu", "SELECT a::integer, b::string, t0::tag, t1::tag FROM rp0.cpu, rp1.cpu"},
+		{"SELECT max(*) FROM db0..cpu, db1..cpu, db2.rp2.cpu", "SELECT max(c::boolean) AS max_c, max(idle::float) AS max_idle, max(sys::float) AS max_sys, max(usage::float) AS max_usage FROM db0..cpu, db1..cpu, db2.rp2.cpu"},
+		{"SELECT usage FROM db0..cpu, db1..cpu GROUP BY *", "SELECT usage::float FROM db0..cpu, db1..cpu GROUP BY host, region"},
+		{"SELECT * FROM (SELECT * FROM db0..cpu, db1..cpu)", "SELECT host::tag, idle::float, region::tag, sys::float, usage::float FROM (SELECT host::tag, idle::float, region::tag, sys::float, usage::float FROM db0..cpu, db1..cpu)"},
+		{"SELECT * FROM db0..cpu, db0..cpu", "SELECT host::tag, sys::float, usage::integer FROM db0..cpu, db0..cpu"},
+	} {
+		st, err := influxql.ParseStatement(tc.q)
+		if err != nil {
+			r.Violation("generated-statement-rejected", map[string]interface{}{"idx": -2000, "input": tc.q, "why": err.Error()})
+			continue
+		}
+		var o *influxql.SelectStatement
+		var e error
+		if p, pv, stk := mon.Try(func() { o, e = st.(*influxql.SelectStatement).RewriteFields(fm) }); p {
+			r.Violation("panic", map[string]interface{}{"idx": -2000, "input": tc.q, "why": fmt.Sprint(pv), "stack": stk})
+			continue
+		}
+		r.Eval(1)
+		if e != nil || o.String() != tc.want {
+			got := fmt.Sprint(e)
+			if e == nil {
+				got = o.String()
+			}
+			r.Violation("expansion-differs", map[string]interface{}{"idx": -2000, "input": tc.q, "schema": "per database / retention policy, see c12PerDatabase", "why": "got " + got + " | want " + tc.want})
+			continue
+		}
+		r.Count("per-database-schemas", 1)
+	}
+}
+
+type keyedMapper func(mm *influxql.Measurement) (map[string]influxql.DataType, []string)
+
+func (k keyedMapper) FieldDimensions(mm *influxql.Measurement) (map[string]influxql.DataType, map[string]struct{}, error) {
+	f, t := k(mm)
+	fields := map[string]influxql.DataType{}
+	for n, ty := range f {
+		fields[n] = ty
+	}
+	tags := map[string]struct{}{}
+	for _, n := range t {
+		tags[n] = struct{}{}
+	}
+	return fields, tags, nil
+}
+
+func (k keyedMapper) MapType(mm *influxql.Measurement, field string) influxql.DataType {
+	f, t := k(mm)
+	if ty, ok := f[field]; ok {
+		return ty
+	}
+	for _, n := range t {
+		if n == field {
+			return influxql.Tag
+		}
+	}
+	return influxql.Unknown
+}
+
+func (k keyedMapper) CallType(name string, args []influxql.DataType) (influxql.DataType, error) {
+	if len(args) > 0 {
+		return args[0], nil
+	}
+	return influxql.Unknown, nil
 }
 
 func c12Case(c *Ctx, idx int, sch *c12schema, text string, local map[string]int64) {
@@ -678,6 +801,19 @@ func c12Case(c *Ctx, idx int, sch *c12schema, text string, local map[string]int6
 	}
 	if len(got.Dimensions) != len(sel.Dimensions) {
 		local["dimension-expansions"]++
+	}
+	// the same schema through a mapper put together the way a server does it:
+	// field dimensions from the schema, types from MultiTypeMapper over two
+	// mappers that each know only part of the functions, in front of the schema
+	{
+		base := sch.mapper()
+		comp := &composedMapper{fd: base, TypeMapper: influxql.MultiTypeMapper(partialCalls{m: base, odd: true}, partialCalls{m: base, odd: false}, base)}
+		o, e := sel.RewriteFields(comp)
+		if (e == nil) != (gerr == nil) || (e == nil && dumpOf(o) != dumpOf(got)) {
+			r.Violation("expansion-differs", det(fmt.Sprintf("through a mapper composed with MultiTypeMapper (two partial call-type mappers in front of the schema) the result differs: %v | %s", e, astx.FirstDiff(dumpOf(got), dumpOf(o)))))
+			return
+		}
+		local["composed-mapper"]++
 	}
 	// a mapper that hands out its own (cached) maps must find them untouched,
 	// and a second call through it must give the same answer
@@ -746,6 +882,7 @@ func checkC12(c *Ctx) (string, bool, []string) {
 	}
 	n := c.N(15000, 600000)
 	c12Joined(c)
+	c12PerDatabase(c)
 	mon.Parallel(n, c.Workers, func(i int) {
 		local := map[string]int64{}
 		c12One(c, i, local)
